@@ -1,6 +1,15 @@
 // Harnesses injected as child module `verif_h` of `client`.
 #![allow(dead_code, unused_imports)]
 use super::*;
+// explicit imports: the harness must not depend on which names the parent module happens to import
+#[allow(unused_imports)]
+use crate::error::{InvalidPublicKeyError, MatchProofsError};
+#[allow(unused_imports)]
+use crate::key::{PrivateKey, Proof, PublicKey, ReconnectData, SKey, Salt, SessionKey, Sha1Hash, Verifier};
+#[allow(unused_imports)]
+use crate::normalized_string::NormalizedString;
+#[allow(unused_imports)]
+use crate::primes::{Generator, KValue, LargeSafePrime};
 use crate::normalized_string::verif_h::{any_name, name_bytes};
 use crate::server::verif_h::{eq16, eq20, eq32, eq40};
 
